@@ -31,6 +31,12 @@ func FamilySignature(thorough bool) []*Conv {
 		add("three_results", f, "source PFXIn", "(PFXOut, error, error)", "", nil, nil, "three results")
 		add("update_with_result", f, "source PFXIn, target *PFXOut", "PFXOut", "", nil, []string{"update target"}, "update method with a non-error result")
 		add("update_ok", f, "source PFXIn, target *PFXOut", "error", "", nil, []string{"update target"}, "")
+		// an update method that carries the name goverter would give the helper of a nested pair: the helper gets another name
+		if f == "variable" {
+			out = append(out, &Conv{ID: "signature/update_method_named_like_helper/" + f, Family: "signature", Format: f, Params: "source PFXW", Results: "PFXWT",
+				Decls:        io + "type PFXW struct{ One PFXIn }\ntype PFXWT struct{ One PFXOut }\n",
+				ExtraMethods: "\t// goverter:update target\n\tGRPPFXInToUGRPPFXOut func(source PFXIn, target *PFXOut)\n", Spec: &Spec{}, Solo: true})
+		}
 		add("update_unknown_arg", f, "source PFXIn, target *PFXOut", "", "", nil, []string{"update nothere"}, "update names a parameter that does not exist")
 		add("context_only", f, "ctxA PFXIn", "PFXOut", "", []string{"arg:context:regex ^ctx"}, nil, "no source parameter (the only parameter is a context)")
 		add("default_two_sources", f, "source *PFXIn", "*PFXOut", "func PFXNew2(a *PFXIn, b *PFXIn) *PFXOut { return &PFXOut{} }\n", nil, []string{"default PFXNew2"}, "default function with two source parameters")
@@ -65,6 +71,19 @@ func FamilySignature(thorough bool) []*Conv {
 		add("bare_extend", f, "source PFXIn", "PFXOut", "", []string{"extend"}, nil, "goverter:extend without a function name")
 		add("bare_map", f, "source PFXIn", "PFXOut", "", nil, []string{"map"}, "goverter:map without fields")
 	}
+	// settings of the struct format are rejected for the function format whatever the order of the lines (here: output:format
+	// function written below them)
+	add("struct_name_with_function_format", "struct", "source PFXIn", "PFXOut", "", []string{"name PFXMine", "output:format function"}, nil, "goverter:name together with output:format function (written above it)")
+	add("struct_comment_with_function_format", "struct", "source PFXIn", "PFXOut", "", []string{"struct:comment hello", "output:format function"}, nil, "goverter:struct:comment together with output:format function (written above it)")
+	// an unexported function of the output package may be used whatever the order of the lines, and also when only
+	// output:file selects that package
+	for _, f := range []string{"struct", "function"} {
+		add("extend_unexported_output_package_below", f, "source PFXIn", "PFXOut", "func pfxAge2(i int) int { return i }\n", []string{"extend pfxAge2", "output:file ./pfxsame.gen.go", "output:package corpus/GRP"}, nil, "")
+		add("extend_unexported_output_file_only", f, "source PFXIn", "PFXOut", "func pfxAge3(i int) int { return i }\n", []string{"extend pfxAge3", "output:file ./pfxsame2.gen.go"}, nil, "")
+		out[len(out)-1].OutInInput, out[len(out)-2].OutInInput = true, true
+	}
+	// two converters of one output package with one struct name: a diagnostic, not a package that does not compile
+	add("duplicate_struct_name", "struct", "source PFXIn", "PFXOut", "// goverter:converter\n// goverter:name PFXSame\ntype PFXOther interface {\n\tConvert(source PFXOut) PFXIn\n}\n", []string{"name PFXSame"}, nil, "two converters with the same goverter:name in one output package")
 	// custom functions that take the converter interface: a role of its own where a converter value exists (struct
 	// format), an ordinary second source - hence rejected - in function format, whichever setting names the function
 	for _, f := range []string{"struct", "function"} {
